@@ -647,5 +647,12 @@ func (n *node) clone() *node {
 		c.known[b] = true
 	}
 	c.hist = append([]string{}, n.hist...)
+	c.gaps = append([]gapAdoption{}, n.gaps...)
+	if n.libClass != nil {
+		c.libClass = make(map[*sblk]string, len(n.libClass))
+		for k, v := range n.libClass {
+			c.libClass[k] = v
+		}
+	}
 	return &c
 }
